@@ -305,10 +305,8 @@ theorem aligned_convertFrom {p p' : Pool} {self other c' : Cont} {so : Bool}
   split at h
   · unfold Cont.svConvert at h
     split at h
-    · cases h
-    · split at h
-      · exact aligned_cloneFrom h
-      · exact aligned_cloneCross h
+    · exact aligned_cloneFrom h
+    · exact aligned_cloneCross h
   · exact aligned_assign h hs
 
 end FeatModel.Pool
